@@ -577,3 +577,110 @@ def c11(a):
               "mantissa/exponent (relative 2^-40); compare against the order of the two positions.")
     c.assumptions = TRUSTED + ["the harness's independent TZif / POSIX TZ readers", "harness witnesses floor(T/inc) and result/inc, both verified by multiplication in the spec"]
     return c.finish()
+
+
+def shared_copy_drift():
+    """The jiff-static crate compiles a generated copy of src/shared; any
+    difference beyond what the generator strips is drift."""
+    import difflib
+    drift = []
+    root_a = "/repo/src/shared"
+    root_b = "/repo/crates/jiff-static/src/shared"
+
+    def norm(path, generated):
+        out, skip = [], False
+        for line in open(path):
+            t = line.strip()
+            if t == "// only-jiff-start":
+                skip = True
+                continue
+            if t == "// only-jiff-end":
+                skip = False
+                continue
+            if skip or t == "// auto-generated by: jiff-cli generate shared" or t.startswith("#[cfg(feature = \"alloc\")]"):
+                continue
+            out.append(line.rstrip())
+        # the generator reformats what is left (an emptied block becomes `{}`): compare token text only
+        return ["".join("".join(out).split())]
+
+    for dp, _, fs in os.walk(root_a):
+        for f in fs:
+            if not f.endswith(".rs"):
+                continue
+            a = os.path.join(dp, f)
+            b = os.path.join(root_b, os.path.relpath(a, root_a))
+            if not os.path.exists(b):
+                drift.append(f"{b} missing")
+                continue
+            la, lb = norm(a, False), norm(b, True)
+            if la != lb:
+                i = next((k for k, (x, y) in enumerate(zip(la[0], lb[0])) if x != y), min(len(la[0]), len(lb[0])))
+                drift.append(f"{a} vs {b}: first difference at token offset {i}: ...{la[0][max(0, i - 60):i + 60]}... / ...{lb[0][max(0, i - 60):i + 60]}...")
+    return drift
+
+
+@prop("C18")
+def c18(a):
+    c = Check("C18", a.tier, a.seed)
+    wd = workdir("C18")
+    binary = build_harness()
+    zd = compile_zones("C18")
+    quick = a.tier == "quick"
+    lim = ["--max-system", "30", "--max-bundled", "24"] if quick else []
+    runs = []
+    if a.replay:
+        runs = []
+    else:
+        for loader in ("dir", "concat", "bundled", "static", "posix-print"):
+            drivers = ("c03", "c04", "c14") if not quick or loader in ("dir", "static") else ("c03",)
+            for drv in drivers:
+                runs.append((binary, drv, loader, "fat"))
+        # the same bytes with in-memory fattening compiled out
+        slim_bin = build_harness(no_default=True, target="target-nofat")
+        for drv in ("c03", "c04", "c14"):
+            runs.append((slim_bin, drv, "bytes", "nofat"))
+        for drv in ("c03",) if quick else ("c03", "c04", "c14"):
+            runs.append((slim_bin, drv, "static", "nofat"))
+    for (binr, drv, loader, fat) in runs:
+        stem = f"{drv}-{loader}-{fat}"
+        ex = ["--zones", zd, "--loader", loader] + lim
+        if drv != "c03":
+            ex += ["--max-system", "20"] if quick and "--max-system" not in ex else []
+        s = run_driver(binr, drv, os.path.join(wd, stem), a.tier, a.seed, ex)
+        c.add_summary(s)
+        if s["files"]:
+            results, mism = tlc_trace("Trace_Tz.tla", s["files"], "C18")
+            # tag the events with the loader so that replays and reports name it
+            c.add_trace(results, [(sh, ln, f"[{loader}, tz-fat {'on' if fat == 'fat' else 'off'}] {why}", ev) for (sh, ln, why, ev) in mism],
+                        driver_cmd=f"jv {drv} --loader {loader} ({fat})")
+    if a.replay:
+        # a replay names the loader in the recorded reason
+        rp = json.load(open(a.replay))
+        why = rp["cases"][0].get("why", "") if rp.get("cases") else ""
+        m = re.match(r"\[(\S+), tz-fat (on|off)\]", why)
+        loader, fat = (m.group(1), m.group(2)) if m else ("bytes", "on")
+        binr = binary if fat == "on" else build_harness(no_default=True, target="target-nofat")
+        drv = rp["cases"][0]["event"].get("op", "info")
+        drv = {"info": "c03", "lookup": "c03", "load": "c03", "amb": "c04", "iter": "c14"}.get(drv, "c03")
+        s = run_driver(binr, drv, os.path.join(wd, "replay"), a.tier, a.seed, ["--zones", zd, "--loader", loader, "--replay", a.replay])
+        c.add_summary(s)
+        if s["files"]:
+            results, mism = tlc_trace("Trace_Tz.tla", s["files"], "C18")
+            c.add_trace(results, mism, driver_cmd=f"jv {drv} --loader {loader}")
+    drift = shared_copy_drift() if not a.replay else []
+    for d in drift:
+        c.violation("the generated copy of src/shared in jiff-static differs from the original", {"event": {"op": "drift", "diff": d}, "driver": "source comparison"})
+    c.rule = ("The C03 / C04 / C14 observations (offset info at six probes around every transition, civil classification and "
+              "the four strategies, following/preceding walks), validated by Trace_Tz.tla against the abstract zone the "
+              "independent reader extracts from the very bytes handed to jiff, with each zone loaded through every back-end: "
+              "TimeZoneDatabase::from_dir on a directory written from the bytes, from_concatenated_path on an Android-style "
+              "file assembled from them, TimeZoneDatabase::bundled, the zones compiled in by tz::get! / tz::include! "
+              "(12 bundled, 12 system, 16 synthetic zones in slim and fat form), TimeZone::tzif on the bytes in a build with "
+              "tz-fat compiled out (and the static zones in that build); POSIX strings parsed, printed by Display and parsed "
+              "again. Every back-end is thus held to the same specification of the same data, which makes them equal to each "
+              "other. lookup events: every zone asked for in upper, lower and alternating case must be found, report the "
+              "canonical name, equal the canonical zone, and be listed by available(). Plus a source comparison of src/shared "
+              "with the generated copy in jiff-static (drift).")
+    c.assumptions = TRUSTED + ["the harness's independent TZif / POSIX readers", "zic for the synthetic zones (slim and fat)",
+                               "the source comparison is textual (generator markers stripped)"]
+    return c.finish()
